@@ -1,8 +1,10 @@
-(* Decidable input classes used in the statements of C12 (executable, no proofs):
-   - known_panic_class: the reduced ASTs on which the faithful model of parse_query panics
-     (finding F6: LIMIT/OFFSET literals that are not u64, strip_quotes on a lone quote or next to a
-     multi-byte character, an empty statement list);
-   - supported: the grammar the conversion accepts. *)
+(* Decidable predicates used in the statements of C12 (executable, no proofs):
+   - parser_output: the invariants of what sqlparser + Rust's str type can hand to parse_query
+     (texts are valid UTF-8; number tokens parse as f64). These are facts about the trusted
+     parser, not defect classes: since the fixes ec6c954 / 88d707c / 7f4db9b the conversion has no
+     reachable panic left, and C12_total is stated for every reduced AST with these invariants;
+   - supported: the grammar the conversion accepts;
+   - expected_name: the name a select item gets. *)
 From Coq Require Import NArith ZArith List Bool.
 From LV Require Import Model.Frontend.
 Import ListNotations.
@@ -10,83 +12,90 @@ Open Scope N_scope.
 
 Definition is_none {A} (o : option A) : bool := match o with None => true | Some _ => false end.
 
-(* strip_quotes panics on exactly these strings *)
-Definition bad_quoted (s : bytes) : bool :=
-  starts_with_quote s &&
-  (Nat.ltb (length s) 2 || negb (is_char_boundary s 1 && is_char_boundary s (length s - 1))).
+(* ------------------------------------------------------------------------------------------- *)
+(* UTF-8 well-formedness (shape only: lead byte classes and continuation bytes)                  *)
+(* ------------------------------------------------------------------------------------------- *)
 
-(* get_raw_val panics on exactly these values (never produced by sqlparser's tokenizer, whose
-   number tokens always parse as f64; kept because the reduced AST admits them) *)
-Definition bad_number (v : value) : bool :=
+Definition is_cont (b : N) : bool := (128 <=? b) && (b <? 192).
+
+Fixpoint valid_utf8 (s : bytes) : bool :=
+  match s with
+  | [] => true
+  | b :: r =>
+      if b <? 128 then valid_utf8 r
+      else if (194 <=? b) && (b <? 224) then
+        match r with c1 :: r1 => is_cont c1 && valid_utf8 r1 | _ => false end
+      else if (224 <=? b) && (b <? 240) then
+        match r with c1 :: c2 :: r2 => is_cont c1 && is_cont c2 && valid_utf8 r2 | _ => false end
+      else if (240 <=? b) && (b <? 245) then
+        match r with c1 :: c2 :: c3 :: r3 => is_cont c1 && is_cont c2 && is_cont c3 && valid_utf8 r3 | _ => false end
+      else false
+  end.
+
+(* number tokens of the tokenizer always parse as f64 (the harness supplies the parsed value) *)
+Definition number_ok (v : value) : bool :=
   match v with
-  | VNumber text f64 => is_none (parse_i64 text) && is_none f64
-  | _ => false
+  | VNumber text f64 => negb (is_none (parse_i64 text) && is_none f64)
+  | _ => true
   end.
 
-Fixpoint expr_bad (e : expr) : bool :=
+Fixpoint expr_wf (e : expr) : bool :=
   match e with
-  | EBinary _ l r => expr_bad l || expr_bad r
-  | EUnary _ x | ENested x | EIsNull x | EIsNotNull x | EFloor x => expr_bad x
-  | EValue v => bad_number v
-  | EIdent v => bad_quoted v
-  | EFunction _ args => fargs_bad args
-  | ELike _ x p _ => expr_bad x || expr_bad p
-  | EOther => false
+  | EBinary _ l r => expr_wf l && expr_wf r
+  | EUnary _ x | ENested x | EIsNull x | EIsNotNull x | EFloor x => expr_wf x
+  | EValue v => number_ok v
+  | EIdent _ => true
+  | EFunction _ args => fargs_wf args
+  | ELike _ x p _ => expr_wf x && expr_wf p
+  | EOther => true
   end
-with farg_bad (a : farg) : bool :=
+with farg_wf (a : farg) : bool :=
   match a with
-  | FAExpr e => expr_bad e
-  | _ => false
+  | FAExpr e => expr_wf e
+  | _ => true
   end
-with fargs_bad (a : fargs) : bool :=
+with fargs_wf (a : fargs) : bool :=
   match a with
-  | FList1 x => farg_bad x
-  | FList2 x y => farg_bad x || farg_bad y
-  | _ => false
+  | FList1 x => farg_wf x
+  | FList2 x y => farg_wf x && farg_wf y
+  | _ => true
   end.
 
-Definition item_bad (it : select_item) : bool :=
+Definition item_wf (it : select_item) : bool :=
   match it with
-  | SIUnnamed e display => expr_bad e || bad_quoted display
-  | SIAlias e alias => expr_bad e || bad_quoted alias
-  | _ => false
+  | SIUnnamed e display => expr_wf e && valid_utf8 display
+  | SIAlias e alias => expr_wf e && valid_utf8 alias
+  | _ => true
   end.
 
-Definition relation_bad (f : from_item) : bool :=
+Definition relation_wf (f : from_item) : bool :=
   match fi_relation f with
-  | TFTable display => bad_quoted display
-  | TFOther => false
+  | TFTable display => valid_utf8 display
+  | TFOther => true
   end.
 
-(* LIMIT / OFFSET: a number literal that is not a u64 *)
-Definition count_bad (o : option expr) : bool :=
-  match o with
-  | Some (EValue (VNumber text _)) => is_none (parse_u64 text)
-  | _ => false
-  end.
+Definition opt_expr_wf (o : option expr) : bool :=
+  match o with Some e => expr_wf e | None => true end.
 
-Definition opt_expr_bad (o : option expr) : bool :=
-  match o with Some e => expr_bad e | None => false end.
-
-Definition order_bad (ob : order_by) : bool :=
+Definition order_wf (ob : order_by) : bool :=
   match ob with
-  | OBExprs l => existsb (fun p => expr_bad (fst p)) l
-  | _ => false
+  | OBExprs l => forallb (fun p => expr_wf (fst p)) l
+  | _ => true
   end.
 
-Definition limit_bad (lc : limit_clause) : bool :=
-  match lc with
-  | LCLimitOffset l o => count_bad l || count_bad o
-  | _ => false
+Definition statement_wf (st : statement) : bool :=
+  match st with
+  | StQuery (BdSelect s) ob lc =>
+      forallb item_wf (s_projection s) && forallb relation_wf (s_from s)
+      && opt_expr_wf (s_selection s) && order_wf ob
+  | _ => true
   end.
 
-Definition known_panic_class (p : parsed) : bool :=
+(* what the parser can produce *)
+Definition parser_output (p : parsed) : bool :=
   match p with
-  | POk [] => true
-  | POk [StQuery (BdSelect s) ob lc] =>
-      existsb item_bad (s_projection s) || existsb relation_bad (s_from s)
-      || opt_expr_bad (s_selection s) || order_bad ob || limit_bad lc
-  | _ => false
+  | POk stmts => forallb statement_wf stmts
+  | _ => true
   end.
 
 (* ------------------------------------------------------------------------------------------- *)
@@ -127,10 +136,11 @@ Definition item_supported (it : select_item) : bool :=
   | SIOther => false
   end.
 
+(* LIMIT / OFFSET: absent, or a number literal that is a u64 *)
 Definition count_supported (o : option expr) : bool :=
   match o with
   | None => true
-  | Some (EValue (VNumber _ _)) => true
+  | Some (EValue (VNumber text _)) => negb (is_none (parse_u64 text))
   | Some _ => false
   end.
 
@@ -153,10 +163,10 @@ Definition supported (p : parsed) : bool :=
   | _ => false
   end.
 
-(* the name a select item is expected to get: its alias or its written text, with the surrounding
-   quote characters removed when the text starts with one *)
+(* the name a select item gets: its alias or its written text; the surrounding quote characters
+   are removed when the text starts AND ends with the same quote character *)
 Definition unquoted (s : bytes) : bytes :=
-  if starts_with_quote s then removelast (tl s) else s.
+  if quoted_by 96 s || quoted_by 34 s then removelast (tl s) else s.
 
 Definition expected_name (it : select_item) : option bytes :=
   match it with
